@@ -45,9 +45,10 @@ structure ReallocPost (E : Nat) (s s' : St) (p osz nsz nal : Nat) (o : Outcome N
   nopanic : o ≠ .panic
   m_eq : s'.a.M = s.a.M
   lim_eq : s'.a.limit = s.a.limit
+  hi : ∀ q, o = .ok q → q + nsz < 2 ^ 63
   ok : ∀ q, o = .ok q → ArenaWF E s'.a ∧ nal ∣ q ∧ s.a.M ∣ q ∧ 0 < q ∧
         (nsz = 0 ∨ InChunk s'.a q nsz) ∧
-        (∀ b bn, 0 < bn → InChunk s.a b bn → Disj b bn p osz → InChunk s'.a b bn ∧ Disj b bn q nsz) ∧
+        (∀ b bn, 0 < bn → InChunk s.a b bn → (osz = 0 ∨ Disj b bn p osz) → InChunk s'.a b bn ∧ (nsz = 0 ∨ Disj b bn q nsz)) ∧
         ((q = p ∧ s'.mem = s.mem) ∨
          (s'.mem = s.mem ++ [.copyNonoverlapping p q (min osz nsz)] ∧ Disj p (min osz nsz) q (min osz nsz)) ∨
          (s'.mem = s.mem ++ [.copy p q (min osz nsz)]))
@@ -76,7 +77,7 @@ theorem shrink_spec {E p osz oal nsz nal} (s : St) (hE : EnvOK E) (h : ArenaWF E
   · simp only [hlt, ↓reduceIte]
     by_cases hal : p % nal = 0
     · simp only [hal, ↓reduceIte]
-      refine ⟨(by intro w; simp), (by simp), rfl, rfl, ?_, (by intro hh; cases hh)⟩
+      refine ⟨(by intro w; simp), (by simp), rfl, rfl, (by intro q' hq'; cases hq'; have := hb.hi; omega), ?_, (by intro hh; cases hh)⟩
       intro q hq; cases hq
       refine ⟨h, Nat.dvd_of_mod_eq_zero hal, hb.m_dvd, hb.pos, ?_, ?_, Or.inl ⟨rfl, rfl⟩⟩
       · rcases hb.loc with h0 | ⟨c, hc, h1, h2⟩
@@ -105,7 +106,7 @@ theorem shrink_spec {E p osz oal nsz nal} (s : St) (hE : EnvOK E) (h : ArenaWF E
               unfold Disj at *; omega
           rw [rangesOverlap_false hdisj]
           simp only [Bool.false_eq_true, ↓reduceIte]
-          refine ⟨(by intro w; simp), (by simp), sp.m_eq, sp.lim_eq, ?_, (by intro hh; cases hh)⟩
+          refine ⟨(by intro w; simp), (by simp), sp.m_eq, sp.lim_eq, (by intro q' hq'; cases hq'; exact AllocShape.hi hE h hwf' hsh), ?_, (by intro hh; cases hh)⟩
           intro q' hq'; cases hq'
           refine ⟨hwf', ha, hm, hpos, ?_, ?_, Or.inr (Or.inl ⟨by rw [hmin, sp.mem_eq], by rw [hmin]; exact hdisj⟩)⟩
           · by_cases hz : nsz = 0
@@ -117,19 +118,19 @@ theorem shrink_spec {E p osz oal nsz nal} (s : St) (hE : EnvOK E) (h : ArenaWF E
         | err =>
           simp only [bindO]
           obtain ⟨ha, refs, hrf, hev⟩ := sp.fail (Or.inl rfl)
-          exact ⟨(by intro w; simp), (by simp), sp.m_eq, sp.lim_eq, (by intro q hq; cases hq), fun _ => ⟨ha, sp.mem_eq, refs, hrf, hev⟩⟩
+          exact ⟨(by intro w; simp), (by simp), sp.m_eq, sp.lim_eq, (by intro q' hq'; cases hq'), (by intro q hq; cases hq), fun _ => ⟨ha, sp.mem_eq, refs, hrf, hev⟩⟩
         | panic => exact absurd rfl hnp
         | bad w => exact absurd rfl (sp.nobad w)
         | envBad =>
           simp only [bindO]
-          exact ⟨(by intro w; simp), (by simp), sp.m_eq, sp.lim_eq, (by intro q hq; cases hq), (by intro hh; cases hh)⟩
+          exact ⟨(by intro w; simp), (by simp), sp.m_eq, sp.lim_eq, (by intro q' hq'; cases hq'), (by intro q hq; cases hq), (by intro hh; cases hh)⟩
   · simp only [hlt, ↓reduceIte]
     have hnal_dvd : nal ∣ p := pow2_le_dvd hN hb.oal_pow (by omega) hb.oal_dvd
     rw [if_neg (by intro hh; exact hh (Nat.mod_eq_zero_of_dvd hnal_dvd)), if_neg (by omega)]
     have hkeep : ∀ (s0 : St), s0 = s →
         ReallocPost E s s0 p osz nsz nal (.ok p) := by
       intro s0 hs0; subst hs0
-      refine ⟨(by intro w; simp), (by simp), rfl, rfl, ?_, (by intro hh; cases hh)⟩
+      refine ⟨(by intro w; simp), (by simp), rfl, rfl, (by intro q' hq'; cases hq'; have := hb.hi; omega), ?_, (by intro hh; cases hh)⟩
       intro q hq; cases hq
       refine ⟨h, hnal_dvd, hb.m_dvd, hb.pos, ?_, ?_, Or.inl ⟨rfl, rfl⟩⟩
       · rcases hb.loc with h0 | ⟨c, hc, h1, h2⟩
@@ -167,7 +168,7 @@ theorem shrink_spec {E p osz oal nsz nal} (s : St) (hE : EnvOK E) (h : ArenaWF E
         simp only [storePtr, setCurPtr, hc, Nat.add_zero, ↓reduceIte, bindO, copyNonoverlapping]
         rw [rangesOverlap_false (by unfold Disj; omega)]
         simp only [Bool.false_eq_true, ↓reduceIte]
-        refine ⟨(by intro w; simp), (by simp), rfl, rfl, ?_, (by intro hh; cases hh)⟩
+        refine ⟨(by intro w; simp), (by simp), rfl, rfl, (by intro q' hq'; cases hq'; have := hE.hi; have := FS; omega), ?_, (by intro hh; cases hh)⟩
         intro q hq; cases hq
         refine ⟨h, Nat.dvd_trans (hN.dvd_of_le hb.oal_pow (by omega)) hb.oal_dvd, hb.m_dvd, hb.pos, Or.inl rfl, ?_, Or.inr (Or.inl ⟨rfl, by unfold Disj; omega⟩)⟩
         intro b bn _ hib _
@@ -181,7 +182,7 @@ theorem shrink_spec {E p osz oal nsz nal} (s : St) (hE : EnvOK E) (h : ArenaWF E
         rw [rangesOverlap_false hdisj]
         simp only [Bool.false_eq_true, ↓reduceIte]
         have hwf' := setPtr_wf h hc (p := p + delta) (by have := hw.ptr_ge; omega) (by omega) hqM
-        refine ⟨(by intro w; simp), (by simp), rfl, rfl, ?_, (by intro hh; cases hh)⟩
+        refine ⟨(by intro w; simp), (by simp), rfl, rfl, (by intro q' hq'; cases hq'; have := footer_lt hw; have := hw.hi; have := FS; omega), ?_, (by intro hh; cases hh)⟩
         intro q hq; cases hq
         refine ⟨hwf', Nat.dvd_add hnal_dvd hNd, hqM, (by have := hb.pos; omega), ?_, ?_, Or.inr (Or.inl ⟨by rw [hmin], by rw [hmin]; exact hdisj⟩)⟩
         · by_cases hz : nsz = 0
@@ -230,7 +231,7 @@ theorem growFallback_spec {E p osz oal nsz nal} (s : St) (hE : EnvOK E) (h : Are
           unfold Disj at *; omega
       rw [rangesOverlap_false hdisj]
       simp only [Bool.false_eq_true, ↓reduceIte]
-      refine ⟨(by intro w; simp), (by simp), sp.m_eq, sp.lim_eq, ?_, (by intro hh; cases hh)⟩
+      refine ⟨(by intro w; simp), (by simp), sp.m_eq, sp.lim_eq, (by intro q' hq'; cases hq'; exact AllocShape.hi hE h hwf' hsh), ?_, (by intro hh; cases hh)⟩
       intro q' hq'; cases hq'
       refine ⟨hwf', ha, hm, hpos, ?_, ?_, Or.inr (Or.inl ⟨by rw [hmin, sp.mem_eq], by rw [hmin]; exact hdisj⟩)⟩
       · by_cases hz : nsz = 0
@@ -242,12 +243,12 @@ theorem growFallback_spec {E p osz oal nsz nal} (s : St) (hE : EnvOK E) (h : Are
     | err =>
       simp only [bindO]
       obtain ⟨ha, refs, hrf, hev⟩ := sp.fail (Or.inl rfl)
-      exact ⟨(by intro w; simp), (by simp), sp.m_eq, sp.lim_eq, (by intro q hq; cases hq), fun _ => ⟨ha, sp.mem_eq, refs, hrf, hev⟩⟩
+      exact ⟨(by intro w; simp), (by simp), sp.m_eq, sp.lim_eq, (by intro q' hq'; cases hq'), (by intro q hq; cases hq), fun _ => ⟨ha, sp.mem_eq, refs, hrf, hev⟩⟩
     | panic => exact absurd rfl hnp
     | bad w => exact absurd rfl (sp.nobad w)
     | envBad =>
       simp only [bindO]
-      exact ⟨(by intro w; simp), (by simp), sp.m_eq, sp.lim_eq, (by intro q hq; cases hq), (by intro hh; cases hh)⟩
+      exact ⟨(by intro w; simp), (by simp), sp.m_eq, sp.lim_eq, (by intro q' hq'; cases hq'), (by intro q hq; cases hq), (by intro hh; cases hh)⟩
 
 /-- `grow` -/
 theorem grow_spec {E p osz oal nsz nal} (s : St) (hE : EnvOK E) (h : ArenaWF E s.a)
@@ -257,7 +258,7 @@ theorem grow_spec {E p osz oal nsz nal} (s : St) (hE : EnvOK E) (h : ArenaWF E s
   have hmin : min osz nsz = osz := Nat.min_eq_left hle
   have hsame : ∀ (o : Outcome Nat), o = .err → ReallocPost E s s p osz nsz nal o := by
     intro o ho; subst ho
-    exact ⟨(by intro w; simp), (by simp), rfl, rfl, (by intro q hq; cases hq), fun _ => ⟨rfl, rfl, [], AllRefused.nil, by simp⟩⟩
+    exact ⟨(by intro w; simp), (by simp), rfl, rfl, (by intro q' hq'; cases hq'), (by intro q hq; cases hq), fun _ => ⟨rfl, rfl, [], AllRefused.nil, by simp⟩⟩
   unfold grow
   cases hru : roundUpTo nsz s.a.M with
   | none => exact hsame _ rfl
@@ -281,7 +282,17 @@ theorem grow_spec {E p osz oal nsz nal} (s : St) (hE : EnvOK E) (h : ArenaWF E s
           exact growFallback_spec s hE h hb hN hle hlay
         · rw [htf]
           simp only [pureO, bindO]
-          refine ⟨(by intro w; simp), (by simp), eff.m_eq, eff.lim_eq, ?_, (by intro hh; cases hh)⟩
+          refine ⟨(by intro w; simp), (by simp), eff.m_eq, eff.lim_eq, ?_, ?_, (by intro hh; cases hh)⟩
+          · intro q' hq'; cases hq'
+            have := hb.hi
+            rcases eff.shape with ⟨hnil, _, hq, hd0⟩ | ⟨c, cs, hc, _, _, hle'⟩
+            · have hcur : s.a.cur E = emptyChunk E := by simp [Arena.cur, hnil]
+              rw [hcur] at hp
+              simp only [emptyChunk] at hp
+              omega
+            · have hcur : s.a.cur E = c := by simp [Arena.cur, hc]
+              rw [hcur] at hp
+              omega
           intro q' hq'; cases hq'
           have hnalq : nal ∣ q := pow2_le_dvd hN hb.oal_pow hge eff.al_dvd
           rcases eff.shape with ⟨hnil, ha, hq, hd0⟩ | ⟨c, cs, hc, hc', hge', hle'⟩
